@@ -4,7 +4,7 @@
 # The verdict that is recorded in seeded/<id>/meta.json still comes from try_seed.sh (the registered check on /repo).
 set -u
 id=$1; wt=$2; mode=${3:-quick}
-hs=/tmp/hs-$id
+hs=/tmp/hs-$id-$$
 rm -rf $hs; mkdir -p $hs
 rsync -a --exclude target /verif/harness/ $hs/
 sed -i "s#path = \"/repo#path = \"$wt#g" $hs/Cargo.toml
